@@ -448,3 +448,191 @@ Example C08_tparams_reject_example :
 Proof. exact ex_range_rejected. Qed.
 Print Assumptions C08_tparams_reject_example.
 (* ==== end tparams ==== *)
+(* ==== headers ==== *)
+(** Packet headers (coq/Wire/Headers.v mirrors internal/wire/header.go, extended_header.go,
+    short_header.go, version_negotiation.go).  [append_ext e v] is ExtendedHeader.Append with the
+    version argument v, [parse_header] is parseHeader (what ParsePacket runs), [parse_extended] is
+    Header.ParseExtended; results carry the error class (0 = nil). *)
+From V Require Import Lib.Hex Wire.Headers Wire.HeadersProofs.
+
+(** Initial / Handshake / 0-RTT headers of version 1 and 2: whatever follows the header, parseHeader
+    returns the fields Append was given (the token only for Initial), reports |Append| minus the packet
+    number bytes as parsed, and ParseExtended recovers the packet number length and the packet number
+    modulo 2^(8*pnLen), reports exactly |Append| bytes, and finds the reserved bits zero. *)
+Theorem C08_longhdr_roundtrip : forall e v payload,
+  hVersion (eHdr e) = v -> (v = H_Version1 \/ v = H_Version2) ->
+  (hType (eHdr e) = H_PacketTypeInitial \/ hType (eHdr e) = H_PacketTypeHandshake \/ hType (eHdr e) = H_PacketType0RTT) ->
+  zlen (hDst (eHdr e)) <= W_MaxConnIDLen -> zlen (hSrc (eHdr e)) <= W_MaxConnIDLen ->
+  0 <= hLength (eHdr e) <= maxVarInt2 -> 1 <= ePnLen e <= 4 -> zlen (hToken (eHdr e)) <= maxVarInt8 ->
+  exists enc, append_ext e v = (0, enc) /\
+    let fb := 192 + 16 * type_code v (hType (eHdr e)) + (ePnLen e - 1) in
+    let h' := mkHeader fb (hType (eHdr e)) v (hSrc (eHdr e)) (hDst (eHdr e)) (hLength (eHdr e))
+                (if hType (eHdr e) =? H_PacketTypeInitial then hToken (eHdr e) else []) (zlen enc - ePnLen e) in
+    parse_header (enc ++ payload) = Some (h', 0) /\
+    parse_extended h' (enc ++ payload) = (0, Some (mkExt h' fb (ePnLen e) (ePn e mod 2 ^ (8 * ePnLen e)) (zlen enc))).
+Proof. exact longhdr_roundtrip_full. Qed.
+Print Assumptions C08_longhdr_roundtrip.
+
+Theorem C08_longhdr_length : forall e v,
+  hVersion (eHdr e) = v -> (v = H_Version1 \/ v = H_Version2) ->
+  (hType (eHdr e) = H_PacketTypeInitial \/ hType (eHdr e) = H_PacketTypeHandshake \/ hType (eHdr e) = H_PacketType0RTT) ->
+  zlen (hDst (eHdr e)) <= W_MaxConnIDLen -> zlen (hSrc (eHdr e)) <= W_MaxConnIDLen ->
+  0 <= hLength (eHdr e) <= maxVarInt2 -> 1 <= ePnLen e <= 4 -> zlen (hToken (eHdr e)) <= maxVarInt8 ->
+  exists enc, append_ext e v = (0, enc) /\ zlen enc = get_length e.
+Proof. exact longhdr_length_full. Qed.
+Print Assumptions C08_longhdr_length.
+
+(** Retry (Append writes no integrity tag): with any 16 bytes behind it the header parses back,
+    the token being everything but those 16 bytes; the whole packet is reported as parsed. *)
+Theorem C08_retry_roundtrip : forall e v tag,
+  hVersion (eHdr e) = v -> (v = H_Version1 \/ v = H_Version2) -> hType (eHdr e) = H_PacketTypeRetry ->
+  zlen (hDst (eHdr e)) <= W_MaxConnIDLen -> zlen (hSrc (eHdr e)) <= W_MaxConnIDLen ->
+  0 < zlen (hToken (eHdr e)) -> zlen tag = 16 ->
+  exists enc, append_ext e v = (0, enc) /\
+    parse_header (enc ++ tag)
+    = Some (mkHeader (192 + 16 * type_code v H_PacketTypeRetry) H_PacketTypeRetry v (hSrc (eHdr e)) (hDst (eHdr e)) 0
+                     (hToken (eHdr e)) (zlen enc + 16), 0).
+Proof. exact retry_roundtrip. Qed.
+Print Assumptions C08_retry_roundtrip.
+
+(** Short header: round trip, predicted length, exact consumed length. *)
+Theorem C08_shorthdr_roundtrip : forall cid pn pnLen kp payload,
+  1 <= pnLen <= 4 -> (kp = H_KeyPhaseZero \/ kp = H_KeyPhaseOne) ->
+  exists enc, append_short cid pn pnLen kp = (0, enc) /\
+    zlen enc = short_header_len cid pnLen /\
+    parse_short (enc ++ payload) (zlen cid) = (0, (zlen enc, pn mod 2 ^ (8 * pnLen), pnLen, kp)).
+Proof. exact shorthdr_roundtrip. Qed.
+Print Assumptions C08_shorthdr_roundtrip.
+
+(** Version Negotiation: every composed packet (any random first byte, connection IDs up to 255 bytes,
+    non-empty list of 32-bit versions) parses back to the same connection IDs and version list. *)
+Theorem C08_vneg_roundtrip : forall rnd dst src gv,
+  zlen dst <= 255 -> zlen src <= 255 -> gv <> [] -> Forall (fun v => 0 <= v < 2 ^ 32) gv ->
+  parse_vneg (compose_vneg rnd dst src gv) = (0, dst, src, gv).
+Proof. exact vneg_roundtrip. Qed.
+Print Assumptions C08_vneg_roundtrip.
+
+(** ... in particular with the list GetGreasedVersions builds, wherever the reserved version lands. *)
+Theorem C08_vneg_greased_roundtrip : forall rnd dst src pos rv versions,
+  zlen dst <= 255 -> zlen src <= 255 -> 0 <= rv < 2 ^ 32 -> Forall (fun v => 0 <= v < 2 ^ 32) versions ->
+  parse_vneg (compose_vneg rnd dst src (greased pos rv versions)) = (0, dst, src, greased pos rv versions).
+Proof. exact vneg_greased_roundtrip. Qed.
+Print Assumptions C08_vneg_greased_roundtrip.
+
+(** ParseConnectionID agrees with the full parsers on the destination connection ID. *)
+Theorem C08_parse_connid_long : forall b h e k,
+  parse_header b = Some (h, e) -> (e = 0 \/ e = E_Unsupported) -> is_long (hd 0 b) = true ->
+  parse_connection_id b k = (0, hDst h).
+Proof. exact connid_long. Qed.
+Print Assumptions C08_parse_connid_long.
+
+Theorem C08_parse_connid_short : forall data k c l pn pnLen kp,
+  parse_short data k = (c, (l, pn, pnLen, kp)) -> (c = 0 \/ c = E_Reserved) -> 0 <= k <= W_MaxConnIDLen ->
+  parse_connection_id data k = (0, zfirstn k (tl data)).
+Proof. exact connid_short. Qed.
+Print Assumptions C08_parse_connid_short.
+
+(** Connection IDs longer than 20 bytes are rejected in long headers: an accepted header (nil error or
+    unsupported version) has both connection IDs within the limit, and a destination connection ID
+    length byte above 20 makes parseHeader, ParsePacket and ParseConnectionID fail. *)
+Theorem C08_reject_hdr_cid_len : forall b h e,
+  parse_header b = Some (h, e) -> (e = 0 \/ e = E_Unsupported) ->
+  zlen (hDst h) <= 20 /\ zlen (hSrc h) <= 20.
+Proof. exact accepted_cid_lens. Qed.
+Print Assumptions C08_reject_hdr_cid_len.
+
+Theorem C08_reject_hdr_cid_len_dst : forall b k,
+  6 <= zlen b -> is_long (hd 0 b) = true -> nth 5 b 0 > 20 ->
+  (exists h e, parse_header b = Some (h, e) /\ (e = E_NotQUIC \/ e = E_CIDLen)) /\
+  (exists pcls, parse_packet b = (pcls, None, [], []) /\ (pcls = E_NotQUIC \/ pcls = E_CIDLen)) /\
+  parse_connection_id b k = (E_CIDLen, []).
+Proof. exact reject_dst_cid_len. Qed.
+Print Assumptions C08_reject_hdr_cid_len_dst.
+
+(** Consumed lengths never exceed the input; ParsePacket cuts the input at ParsedLen + Length. *)
+Theorem C08_longhdr_consumed : forall b h e,
+  parse_header b = Some (h, e) -> (e = 0 \/ e = E_Unsupported) -> 1 <= hParsedLen h <= zlen b.
+Proof. exact parse_header_consumed. Qed.
+Print Assumptions C08_longhdr_consumed.
+
+Theorem C08_parse_packet_consumed : forall b h pkt rest,
+  parse_packet b = (0, Some h, pkt, rest) ->
+  parse_header b = Some (h, 0) /\ pkt ++ rest = b /\
+  hParsedLen h + hLength h <= zlen b /\ (0 <= hLength h -> zlen pkt = hParsedLen h + hLength h).
+Proof. exact parse_packet_consumed. Qed.
+Print Assumptions C08_parse_packet_consumed.
+
+Theorem C08_exthdr_consumed : forall h data c e,
+  parse_extended h data = (c, Some e) -> 0 <= hParsedLen h ->
+  (c = 0 \/ c = E_Reserved) /\ eHdr e = h /\ 1 <= ePnLen e <= 4 /\
+  eParsedLen e = hParsedLen h + ePnLen e /\ eParsedLen e <= zlen data.
+Proof. exact parse_extended_consumed. Qed.
+Print Assumptions C08_exthdr_consumed.
+
+Theorem C08_shorthdr_consumed : forall data k c l pn pnLen kp,
+  parse_short data k = (c, (l, pn, pnLen, kp)) -> (c = 0 \/ c = E_Reserved) ->
+  l = 1 + k + pnLen /\ 1 <= pnLen <= 4 /\ l <= zlen data /\ (kp = H_KeyPhaseZero \/ kp = H_KeyPhaseOne).
+Proof. exact parse_short_consumed. Qed.
+Print Assumptions C08_shorthdr_consumed.
+
+(** parse -> Append -> parse is a fixpoint: a long header with a packet number parsed from ANY byte string
+    (Length small enough for the 2-byte field Append writes; reserved bits may be set) is written by Append
+    in GetLength bytes and parses back to the same fields, packet number and packet number length. *)
+Theorem C08_longhdr_reencode : forall b h c x payload,
+  Forall (fun y => 0 <= y < 256) b -> zlen b <= maxVarInt8 ->
+  parse_header b = Some (h, 0) ->
+  (hType h = H_PacketTypeInitial \/ hType h = H_PacketTypeHandshake \/ hType h = H_PacketType0RTT) ->
+  hLength h <= maxVarInt2 ->
+  parse_extended h b = (c, Some x) ->
+  exists enc, append_ext x (hVersion h) = (0, enc) /\ zlen enc = get_length x /\
+    let fb := 192 + 16 * type_code (hVersion h) (hType (eHdr x)) + (ePnLen x - 1) in
+    let h2 := mkHeader fb (hType h) (hVersion h) (hSrc h) (hDst h) (hLength h) (hToken h) (zlen enc - ePnLen x) in
+    parse_header (enc ++ payload) = Some (h2, 0) /\
+    parse_extended h2 (enc ++ payload) = (0, Some (mkExt h2 fb (ePnLen x) (ePn x) (zlen enc))).
+Proof. exact longhdr_reencode. Qed.
+Print Assumptions C08_longhdr_reencode.
+
+(** Is0RTTPacket (used before the header is parsed) agrees with the parsed packet type. *)
+Theorem C08_is0rtt_agrees : forall b h,
+  parse_header b = Some (h, 0) -> is_long (hd 0 b) = true -> is_0rtt b = (hType h =? H_PacketType0RTT).
+Proof. exact is_0rtt_agrees. Qed.
+Print Assumptions C08_is0rtt_agrees.
+
+(** Non-vacuity: a version 2 Initial with a token, 3-byte packet number and Length 16383 satisfies the
+    hypotheses of the round trip, and the model computes on it. *)
+Example C08_longhdr_nonvacuous :
+  let e := mkExt (mkHeader 0 H_PacketTypeInitial H_Version2 [1; 2; 3] [4; 5; 6; 7; 8; 9; 10; 11] 16383 [170; 187] 0) 0 3 16909060 0 in
+  (hVersion (eHdr e) = H_Version2 /\ zlen (hDst (eHdr e)) <= W_MaxConnIDLen /\ 0 <= hLength (eHdr e) <= maxVarInt2) /\
+  append_ext e H_Version2
+  = (0, [210; 107; 51; 67; 207; 8; 4; 5; 6; 7; 8; 9; 10; 11; 3; 1; 2; 3; 2; 170; 187; 127; 255; 2; 3; 4]) /\
+  get_length e = 26 /\
+  (let '(_, h, pkt, rest) := parse_packet (snd (append_ext e H_Version2) ++ [9; 9; 9]) in h) = None /\
+  parse_header (snd (append_ext e H_Version2) ++ [9])
+  = Some (mkHeader 210 H_PacketTypeInitial H_Version2 [1; 2; 3] [4; 5; 6; 7; 8; 9; 10; 11] 16383 [170; 187] 23, 0).
+Proof. vm_compute. repeat split; congruence. Qed.
+Print Assumptions C08_longhdr_nonvacuous.
+
+(** ... and a byte string satisfying the hypotheses of the re-encoding theorem (Handshake, version 1,
+    1-byte Length field, reserved bits set). *)
+Example C08_reencode_nonvacuous :
+  let b := [236; 0; 0; 0; 1; 1; 7; 0; 5; 1; 2; 3; 4; 5] in
+  match parse_header b with
+  | Some (h, 0) =>
+    hType h = H_PacketTypeHandshake /\ hLength h = 5 /\
+    match parse_extended h b with
+    | (c, Some x) => c = E_Reserved /\ ePn x = 1 /\ ePnLen x = 1 /\
+                     append_ext x (hVersion h) = (0, [224; 0; 0; 0; 1; 1; 7; 0; 64; 5; 1])
+    | _ => False
+    end
+  | _ => False
+  end.
+Proof. vm_compute. repeat split; reflexivity. Qed.
+Print Assumptions C08_reencode_nonvacuous.
+
+Example C08_vneg_nonvacuous :
+  parse_vneg (compose_vneg 37 [1; 2] [3] (greased 1 439041101 [1; 1798521807]))
+  = (0, [1; 2], [3], [1; 439041101; 1798521807]) /\
+  parse_connection_id [192; 0; 0; 0; 1; 21] 0 = (E_CIDLen, []).
+Proof. vm_compute. split; reflexivity. Qed.
+Print Assumptions C08_vneg_nonvacuous.
+(* ==== end headers ==== *)
